@@ -53,6 +53,7 @@ var c06LongRunRe = regexp.MustCompile(`x{1000,}`)
 // machine cannot reach by accident.  (Uint32SliceDelete used to block forever on a live key; since
 // the repair of that deadlock it is drawn as often as any other request and has the same limit.
 // If the deadlock comes back, every such request costs the full limit and is reported.)
+// (both go through HxScale: /verif/check re-runs a case whose reply was `hang` alone with longer limits)
 const c06OpTimeout = 60 * time.Second
 const c06SlowTimeout = 60 * time.Second
 
@@ -925,7 +926,7 @@ func c06Run(in *bufio.Scanner, w *bufio.Writer) {
 			go func() { s.rig.Zeus.StopHydra(); close(done) }()
 			select {
 			case <-done:
-			case <-time.After(15 * time.Second):
+			case <-time.After(HxScale(15 * time.Second)):
 			}
 		}
 		for _, r := range roots {
@@ -963,6 +964,17 @@ func c06Run(in *bufio.Scanner, w *bufio.Writer) {
 			continue
 		}
 		switch f[0] {
+		case "within":
+			// real-time bracket: everything up to here happened less than MS ms after the case base (the
+			// model answers ok; a slow machine answers `hang slow`, and the case is re-run alone)
+			ms, _ := strconv.Atoi(f[1])
+			if time.Now().UnixNano()-s.base < int64(ms)*int64(time.Millisecond) {
+				fmt.Fprintln(w, "ok")
+			} else {
+				fmt.Fprintln(w, "hang slow")
+				s.dead = true
+			}
+			continue
 		case "wait":
 			ms, _ := strconv.Atoi(f[1])
 			time.Sleep(time.Duration(ms) * time.Millisecond)
@@ -992,7 +1004,7 @@ func c06Run(in *bufio.Scanner, w *bufio.Writer) {
 				select {
 				case <-done:
 					fmt.Fprintln(w, "ok")
-				case <-time.After(c06SlowTimeout):
+				case <-time.After(HxScale(c06SlowTimeout)):
 					fmt.Fprintln(w, "hang")
 					s.dead, s.rigDead = true, true
 				}
@@ -1000,7 +1012,7 @@ func c06Run(in *bufio.Scanner, w *bufio.Writer) {
 			continue
 		case "closeidle":
 			// idle eviction through the real close listener (1 s idle timeout + 1 s gap)
-			deadline := time.Now().Add(30 * time.Second)
+			deadline := time.Now().Add(HxScale(30 * time.Second))
 			closed := false
 			for time.Now().Before(deadline) {
 				live := false
@@ -1018,7 +1030,9 @@ func c06Run(in *bufio.Scanner, w *bufio.Writer) {
 			if closed {
 				fmt.Fprintln(w, "ok")
 			} else {
-				fmt.Fprintln(w, "noclose")
+				// timing-shaped: reported as a hang so that the case is re-run alone before it is believed
+				fmt.Fprintln(w, "hang noclose")
+				s.dead, s.rigDead = true, true
 			}
 			continue
 		case "restart":
@@ -1040,7 +1054,7 @@ func c06Run(in *bufio.Scanner, w *bufio.Writer) {
 					s.rig = n
 					fmt.Fprintln(w, "ok")
 				}
-			case <-time.After(20 * time.Second):
+			case <-time.After(HxScale(20 * time.Second)):
 				fmt.Fprintln(w, "hang")
 				s.dead, s.rigDead = true, true
 			}
@@ -1069,7 +1083,7 @@ func c06Run(in *bufio.Scanner, w *bufio.Writer) {
 		case r := <-res:
 			r = c06LongRunRe.ReplaceAllStringFunc(r, func(m string) string { return "x@" + strconv.Itoa(len(m)) })
 			fmt.Fprintln(w, r)
-		case <-time.After(c06TimeoutOf(f[0])):
+		case <-time.After(HxScale(c06TimeoutOf(f[0]))):
 			fmt.Fprintln(w, "hang")
 			s.dead, s.rigDead = true, true
 		}
